@@ -4,6 +4,7 @@ package codon
 
 // C06: translation implements the NCBI genetic codes codon by codon.
 //
+// verif:bound C06 after-optimisation clause: tables 1 and 11 re-weighted from ATG+xxx+TAA (xxx one of six codons), the translated protein optimised with that table, then a symbolic codon translated under a freshly requested table: NCBI assignment
 // verif:bound C06 codon clause: all 25 table ids x every codon over {A,C,G,T,a,c,g,t}^3 (complete: the solver decides all 512 spellings of the 64 codons per table)
 // verif:bound C06 table-pair clause: every ordered pair of different tables (quick: pairs whose codes differ) used in sequence i, j, i on a symbolic upper-case codon
 // verif:bound C06 start/stop lists: closed comparison for the 25 tables (no symbolic input)
@@ -65,6 +66,25 @@ func Harness_C06_TablePairs() {
 		if len(got) == 1 {
 			vAssert(got[0] == vTable(ncbiCode(id), idx), "codon-translates-to-ncbi-assignment-after-another-table-was-used")
 		}
+	}
+}
+
+// translation under a freshly requested table is the NCBI assignment whatever was re-weighted
+// and optimised earlier in the same process
+func Harness_C06_AfterOptimize() {
+	id := []int{1, 11}[vChoice(2)]
+	cds := "ATG" + []string{"GCC", "GCT", "CTG", "AGA", "TGG", "TCG"}[vChoice(6)] + "TAA"
+	protein, _ := Translate(cds, GetCodonTable(id))
+	table := GetCodonTable(id).OptimizeTable(cds)
+	panicked := vPanics(func() { Optimize(protein, table) })
+	vAssert(!panicked, "optimize-does-not-panic")
+	cod := vBytes(3, "ACGT")
+	pos := ncbiPosTable()
+	idx := vTable(pos, cod[0])*16 + vTable(pos, cod[1])*4 + vTable(pos, cod[2])
+	got, err := Translate(cod, GetCodonTable(id))
+	vAssert(err == nil && len(got) == 1, "one-residue-per-codon")
+	if len(got) == 1 {
+		vAssert(got[0] == vTable(ncbiCode(id), idx), "codon-translates-to-ncbi-assignment-after-an-optimisation")
 	}
 }
 
